@@ -12,6 +12,14 @@
 //   C <tag>                   cancel on the loop thread (unknown tag: cancel(TimerId()))
 //   FA <tag> <when> <iv>      add from a foreign (helper) thread, joined before the op returns
 //   FC <tag>                  cancel from a foreign thread, joined
+//   FN <tag> <when> <iv>      foreign add, first micro-steps only: a helper thread calls the add and is parked
+//                             at the pthread_mutex_lock of EventLoop::queueInLoop, i.e. after `new Timer` and
+//                             the read of its sequence, before the hand-off (--wrap=pthread_mutex_lock)
+//   FQ <tag>                  lets that helper go on: queueInLoop(addTimerInLoop) + wakeup, returns the id
+//                             (event badid(ret,own) if the returned id does not carry the timer's sequence)
+//   Q { cbop | cbop ... }     the loop thread queues a user functor (EventLoop::queueInLoop) that performs the
+//                             cbops (T/A/C/FA/FC) when doPendingFunctors runs it; a cancel inside names the id
+//                             the tag had when the functor was queued
 //   P                         EventLoop::doPendingFunctors()
 //   F [ cbop , cbop ; cbop ; ... ]   TimerQueue::handleRead(); i-th group = what the i-th callback
 //                             of this batch executes (cbop = T/A/C/FA/FC as above)
@@ -22,6 +30,7 @@
 #include <errno.h>
 #include <pthread.h>
 #include <stdint.h>
+#include <semaphore.h>
 #include <sys/time.h>
 #include <sys/timerfd.h>
 #include <sys/types.h>
@@ -84,7 +93,32 @@ static string i64(int64_t v) { return std::to_string(static_cast<long long>(v));
 static int64_t num(const string& s) { return static_cast<int64_t>(strtoll(s.c_str(), NULL, 10)); }
 
 // ------------------------------------------------------------------ interposition
+// a foreign add parked between its two micro-steps
+struct Parked
+{
+  std::thread th;
+  sem_t reached, go;
+  TimerId id;
+  int slot;
+  int64_t ownSeq;      // sequence of the Timer it constructed (relative to g_base)
+};
+static std::map<int, Parked*> g_parked;            // tag -> helper
+static thread_local Parked* t_park = NULL;         // set in a helper that has to park at the hand-off
+static pthread_mutex_t* g_loopMutex = NULL;        // &g_loop->mutex_.mutex_
+
 extern "C" {
+int __real_pthread_mutex_lock(pthread_mutex_t* m);
+int __wrap_pthread_mutex_lock(pthread_mutex_t* m)
+{
+  if (t_park != NULL && m == g_loopMutex)
+  {
+    Parked* p = t_park;
+    t_park = NULL;                 // park once
+    sem_post(&p->reached);
+    while (sem_wait(&p->go) != 0 && errno == EINTR) {}
+  }
+  return __real_pthread_mutex_lock(m);
+}
 int __real_timerfd_settime(int fd, int flags, const struct itimerspec* nv, struct itimerspec* ov);
 ssize_t __real_read(int fd, void* buf, size_t n);
 
@@ -194,6 +228,84 @@ static bool doAdd(int tag, int64_t when, int64_t iv, bool foreign)
   return true;
 }
 
+// FN: the first micro-steps of a foreign add
+static bool doForeignNew(int tag, int64_t when, int64_t iv)
+{
+  if (when <= 0) return false;
+  int slot = static_cast<int>(g_slots.size());
+  g_slots.push_back(TimerId());
+  Parked* p = new Parked;
+  sem_init(&p->reached, 0, 0);
+  sem_init(&p->go, 0, 0);
+  p->slot = slot;
+  int64_t before = Timer::numCreated();
+  p->th = std::thread([p, when, iv, slot] {
+    t_park = p;
+    p->id = callAdd(when, iv, slot);
+  });
+  while (sem_wait(&p->reached) != 0 && errno == EINTR) {}
+  // the helper is parked inside queueInLoop: its Timer exists, nothing has been handed off
+  p->ownSeq = Timer::numCreated() - g_base;
+  if (Timer::numCreated() != before + 1) ev("badnew(" + i64(Timer::numCreated() - before) + ")");
+  ev("add(" + i64(p->ownSeq) + ")");
+  std::map<int, Parked*>::iterator it = g_parked.find(tag);
+  if (it != g_parked.end()) { sem_post(&it->second->go); it->second->th.join(); delete it->second; }
+  g_parked[tag] = p;
+  return true;
+}
+
+// FQ: the hand-off and the return of the id
+static bool doForeignEnq(int tag)
+{
+  std::map<int, Parked*>::iterator it = g_parked.find(tag);
+  if (it == g_parked.end()) return false;
+  Parked* p = it->second;
+  g_parked.erase(it);
+  sem_post(&p->go);
+  p->th.join();
+  TimerId id = p->id;
+  g_slots[static_cast<size_t>(p->slot)] = id;
+  g_ids[tag] = id;
+  g_created[tag] = true;
+  if (id.sequence_ - g_base != p->ownSeq) ev("badid(" + i64(id.sequence_ - g_base) + "," + i64(p->ownSeq) + ")");
+  printf("@addr %d %llu\n", tag,
+         static_cast<unsigned long long>(reinterpret_cast<uintptr_t>(id.timer_)));
+  fflush(stdout);
+  sem_destroy(&p->reached);
+  sem_destroy(&p->go);
+  delete p;
+  return true;
+}
+
+static void releaseParked()
+{
+  for (std::map<int, Parked*>::iterator it = g_parked.begin(); it != g_parked.end(); ++it)
+  {
+    sem_post(&it->second->go);
+    it->second->th.join();
+    // the address is needed by the model side (the allocation happened at FN)
+    printf("@addr %d %llu\n", it->first,
+           static_cast<unsigned long long>(reinterpret_cast<uintptr_t>(it->second->id.timer_)));
+    delete it->second;
+  }
+  fflush(stdout);
+  g_parked.clear();
+}
+
+static void doCancelId(TimerId id, bool foreign)
+{
+  if (foreign) onHelper([id] { g_loop->cancel(id); });
+  else g_loop->cancel(id);
+}
+
+static TimerId idOfTag(int tag)
+{
+  TimerId id;
+  std::map<int, bool>::const_iterator it = g_created.find(tag);
+  if (it != g_created.end() && it->second) id = g_ids[tag];
+  return id;
+}
+
 static void doCancel(int tag, bool foreign)
 {
   TimerId id;
@@ -203,10 +315,54 @@ static void doCancel(int tag, bool foreign)
   else g_loop->cancel(id);
 }
 
-// executes one T/A/C/FA/FC; false = rejected (nothing done)
+// one op of a user functor, resolved when the functor was queued
+struct UOp { CbOp w; TimerId id; };
+static bool execOp(const CbOp& w);
+static void runUser(const std::vector<UOp>& ops)
+{
+  for (size_t i = 0; i < ops.size(); ++i)
+  {
+    const CbOp& w = ops[i].w;
+    if (w[0] == "C" || w[0] == "FC") doCancelId(ops[i].id, w[0] == "FC");
+    else if (!execOp(w)) ev("rejected");
+  }
+}
+// Q { cbop | cbop ... }
+static bool doQueue(const CbOp& w)
+{
+  std::vector<UOp> ops;
+  UOp cur;
+  for (size_t i = 1; i < w.size(); ++i)
+  {
+    const string& t = w[i];
+    if (t == "{") continue;
+    if (t == "|" || t == "}")
+    {
+      if (!cur.w.empty())
+      {
+        const string& k = cur.w[0];
+        if (k != "T" && k != "A" && k != "C" && k != "FA" && k != "FC")
+        { fprintf(stderr, "C06_driver: op '%s' not allowed in a Q body\n", k.c_str()); exit(2); }
+        if ((k == "C" || k == "FC") && cur.w.size() >= 2) cur.id = idOfTag(atoi(cur.w[1].c_str()));
+        ops.push_back(cur);
+        cur = UOp();
+      }
+      if (t == "}") break;
+      continue;
+    }
+    cur.w.push_back(t);
+  }
+  g_loop->queueInLoop(std::bind(&runUser, ops));
+  return true;
+}
+
+// executes one T/A/C/FA/FC/FN/FQ/Q; false = rejected (nothing done)
 static bool execOp(const CbOp& w)
 {
   const string& k = w[0];
+  if (k == "FN" && w.size() >= 4) return doForeignNew(atoi(w[1].c_str()), num(w[2]), num(w[3]));
+  if (k == "FQ" && w.size() >= 2) return doForeignEnq(atoi(w[1].c_str()));
+  if (k == "Q") return doQueue(w);
   if (k == "T" && w.size() >= 2)
   {
     int64_t d = num(w[1]);
@@ -266,6 +422,8 @@ static std::vector<std::vector<CbOp> > parseScript(const std::vector<string>& w)
 
 static void destroyLoop()
 {
+  releaseParked();
+  g_loopMutex = NULL;
   g_tfd = -1;
   g_armed = false;
   delete g_loop;
@@ -326,6 +484,7 @@ int main()
       g_loop = new EventLoop();
       g_base = Timer::numCreated();
       g_tfd = g_loop->timerQueue_->timerfd_;
+      g_loopMutex = g_loop->mutex_.getPthreadMutex();
       printf("case %s\n", w.size() > 1 ? w[1].c_str() : "?");
       fflush(stdout);
       continue;
